@@ -17,7 +17,8 @@ ASSUMPTIONS = [
 CONSTRUCTS = ["{% tag a=\"1 2\" %}", "{{ var | f }}", "{# a comment #}", "<!-- html comment -->", "`code span here`",
               "[link text](http://x.y/z)", "<span class=\"a b\">", "{% t %}{% /t %}", "<!-- a --><!-- /a -->",
               "![alt text](img.png \"T\")", "`` `a b` ``", "`` x = `date +%s` ``", "{% p fmt=\"%Y-%m-%d %H:%M\" %}",
-              "{{ loop.index % 2 }}", "{# 50 # of 100 #}", "<!-- a - b -> c d -->"]
+              "{{ loop.index % 2 }}", "{# 50 # of 100 #}", "<!-- a - b -> c d -->", "<svg:rect width=\"1 2\">",
+              "<o:p class=\"a b\">", "<Menu.Item key=\"a b\">", "<x-tag data-a=\"1 2\"/>"]
 WORDS = ["aa", "bbb", "cccc", "d", "eeeeee"]
 
 
@@ -88,7 +89,7 @@ def bounded(tier, seed):
     return {"evaluations": evals, "distinct_nontrivial": len(distinct), "violations": viol,
             "samples": [{"text": " ".join([WORDS[0], CONSTRUCTS[0], WORDS[2], CONSTRUCTS[4]])}],
             "rule": "each of the 4 single-tag patterns on opener + every body of <= 3 symbols over a 13-symbol alphabet + closer: the match ends at "
-                    "the first closer; seeded top-level paragraphs of 2-7 tokens mixing 5 words with 17 atomic constructs (tags whose body holds their own delimiter characters) (incl. multi-backtick code spans holding backticks) x widths (quick {1,3,5,8,12,20,88}, "
+                    "the first closer; seeded top-level paragraphs of 2-7 tokens mixing 5 words with 21 atomic constructs (tags whose body holds their own delimiter characters) (incl. multi-backtick code spans holding backticks) x widths (quick {1,3,5,8,12,20,88}, "
                     "thorough 1..20, 40, 88) x both modes: every construct lies within one output line and the whitespace-collapsed text is "
                     "unchanged; 5 tag pairs x {prose, list, table, ordered list, tables without trailing pipes} x 4 preceding contexts (none, fenced code in a list item / with an "
                     "indented closing fence, code holding tag lines) x widths {88,20,5} x both modes: the tag lines stay alone "
